@@ -8,14 +8,15 @@
     with the same buffers (level 1) or with the two trees exchanged (level ≥ 2);
     that these equal the adjoint needs the table identities proved in C18
     (`h = reverse h` at level 1, `hb = reverse ha` at level ≥ 2) — the full adjoint
-    theorem is staged (DESIGN.md); the exact correspondence and the Jacobian oracle
-    cover all 20 filter pairs meanwhile.
+    theorem is proved below for level 1 (`fwdJ1_backward_adjoint`); level ≥ 2 stays with the exact
+    correspondence and the Jacobian oracle over all 20 filter pairs.
 -/
 import WaveletsVerif.Lemmas.Basic
 import WaveletsVerif.Properties.C19
 import WaveletsVerif.Model.Dtcwt
+import WaveletsVerif.Properties.C04
 namespace WV.C06
-open Finset WV WV.C19
+open Finset WV WV.C19 WV.C04
 variable {R : Type} [CommRing R]
 
 theorem sum_range_two_mul (n : Nat) (F : Nat → R) :
@@ -75,5 +76,360 @@ theorem FWD_J1_backward_def (s : R) (sym : Bool) (h0 h1 : List R) (rc : Nat × N
 
 theorem FWD_J2PLUS_backward_def (s : R) (h0a h1a h0b h1b : List R) (dl : Img R) (dh : Option (List (Cplx R))) :
     FWD_J2PLUS_backward s h0a h1a h0b h1b dl dh = invJ2 s h0b h1b h0a h1a (some dl) dh := rfl
+
+
+/-! ## level 1: the backward pass is the adjoint -/
+
+/-- symmetric tap function `c(d) = h[m − d]`, `d ∈ [−m, m]` -/
+def tapc (h : List R) (d : Int) : R := getZ h (((h.length/2 : Nat):Int) - d)
+
+theorem tapc_even (h : List R) (hodd : h.length % 2 = 1) (hs : Symm h) (d : Int) : tapc h (-d) = tapc h d := by
+  unfold tapc
+  set m : Int := ((h.length/2 : Nat):Int) with hm
+  have hL : (h.length:Int) = 2*m + 1 := by omega
+  by_cases hin : -m ≤ d ∧ d ≤ m
+  · have h1 : m - -d = ((h.length - 1 - (m - d).toNat : Nat) : Int) := by omega
+    have h2 : m - d = (((m - d).toNat : Nat) : Int) := by omega
+    rw [h1, h2, ← getN_eq_getZ, ← getN_eq_getZ]
+    exact hs _ (by omega)
+  · have z1 : getZ h (m - -d) = 0 := by
+      by_cases hneg : m - -d < 0
+      · exact getZ_neg _ _ hneg
+      · exact getZ_of_ge _ _ (by omega)
+    have z2 : getZ h (m - d) = 0 := by
+      by_cases hneg : m - d < 0
+      · exact getZ_neg _ _ hneg
+      · exact getZ_of_ge _ _ (by omega)
+    rw [z1, z2]
+
+/-- `colfilter` as a sum over the centred tap offsets -/
+theorem colfilter_get_c (h x : List R) (hodd : h.length % 2 = 1) (i : Nat) (hi : i < x.length) :
+    getN (Spec.colfilter h x) i
+      = ∑ d ∈ Finset.Icc (-((h.length/2 : Nat):Int)) ((h.length/2 : Nat):Int), tapc h d * Spec.xt x ((i:Int) + d) := by
+  rw [colfilter_get h x hodd i hi]
+  set m : Int := ((h.length/2 : Nat):Int) with hm
+  have hL : (h.length:Int) = 2*m + 1 := by omega
+  -- reindex j = m - d
+  apply Finset.sum_bij' (fun (j : Nat) _ => m - (j:Int)) (fun (d : Int) _ => (m - d).toNat)
+  · intro j hj; have : j < h.length := by simpa using hj
+    rw [Finset.mem_Icc]; omega
+  · intro d hd; rw [Finset.mem_Icc] at hd; rw [Finset.mem_range]; omega
+  · intro j hj; have : j < h.length := by simpa using hj
+    show (m - (m - (j:Int))).toNat = j; omega
+  · intro d hd; rw [Finset.mem_Icc] at hd; show m - (((m - d).toNat : Nat) : Int) = d; omega
+  · intro j hj; have hj' : j < h.length := by simpa using hj
+    unfold tapc
+    have : m - (m - (j:Int)) = (j:Int) := by ring
+    rw [this, ← getN_eq_getZ]
+    congr 2; ring
+
+theorem symIdx_eq_iff (n u k : Int) (hn : 0 < n) (hk0 : 0 ≤ k) (hk1 : k < n) :
+    symIdx n u = k ↔ ((2*n) ∣ (u - k) ∨ (2*n) ∣ (u + 1 + k)) := by
+  have ht0 := Int.emod_nonneg u (show (2*n) ≠ 0 by omega)
+  have ht1 := Int.emod_lt_of_pos u (show 0 < 2*n by omega)
+  have hdm := Int.emod_add_mul_ediv u (2*n)
+  constructor
+  · intro h
+    unfold symIdx at h
+    simp only at h
+    by_cases hc : u % (2*n) < n
+    · rw [if_pos hc] at h
+      left; exact ⟨u / (2*n), by rw [← h]; linarith⟩
+    · rw [if_neg hc] at h
+      right; exact ⟨u / (2*n) + 1, by rw [← h]; linarith⟩
+  · rintro (⟨q, hq⟩ | ⟨q, hq⟩)
+    · have hu : u = k + 2*n*q := by linarith
+      have : u % (2*n) = k := by
+        rw [hu, Int.add_mul_emod_self_left]; exact Int.emod_eq_of_lt hk0 (by omega)
+      unfold symIdx; simp only [this, hk1, if_true]
+    · have hu : u = (2*n - 1 - k) + 2*n*(q-1) := by linarith
+      have : u % (2*n) = 2*n - 1 - k := by
+        rw [hu, Int.add_mul_emod_self_left]; exact Int.emod_eq_of_lt (by omega) (by omega)
+      unfold symIdx; simp only [this]
+      rw [if_neg (by omega)]; omega
+
+theorem not_both (n u k : Int) (hn : 0 < n) : ¬ ((2*n) ∣ (u - k) ∧ (2*n) ∣ (u + 1 + k)) := by
+  rintro ⟨⟨a, ha⟩, ⟨b, hb⟩⟩
+  have : 2 * k + 1 = 2 * n * (b - a) := by linarith
+  have h2 : (2 * k + 1) % 2 = 1 := by omega
+  have h3 : (2 * n * (b - a)) % 2 = 0 := by
+    rw [mul_assoc]; exact Int.mul_emod_right 2 _
+  omega
+
+
+/-- matrix entry of `colfilter h` on columns of length `n`: `K(i,k) = Σ_d c(d)·[sym(i+d) = k]` -/
+def Kf (h : List R) (n : Nat) (i k : Nat) : R :=
+  ∑ d ∈ Finset.Icc (-((h.length/2 : Nat):Int)) ((h.length/2 : Nat):Int),
+    tapc h d * (if symIdx (n:Int) ((i:Int) + d) = (k:Int) then 1 else 0)
+
+theorem sum_Icc_neg (m : Int) (f : Int → R) : ∑ d ∈ Finset.Icc (-m) m, f d = ∑ d ∈ Finset.Icc (-m) m, f (-d) := by
+  apply Finset.sum_bij' (fun d _ => -d) (fun d _ => -d) <;>
+    first
+    | (intro d hd; rw [Finset.mem_Icc] at hd ⊢; omega)
+    | (intro d hd; rw [Finset.mem_Icc] at hd; simp only [Finset.mem_Icc]; omega)
+    | (intro d _; simp)
+
+/-- the matrix of `colfilter` with a symmetric odd-length filter is symmetric -/
+theorem Kf_symm (h : List R) (hodd : h.length % 2 = 1) (hs : Symm h) (n i k : Nat) (hi : i < n) (hk : k < n) :
+    Kf h n i k = Kf h n k i := by
+  have hn : (0:Int) < n := by omega
+  have split : ∀ (a b : Nat), a < n → b < n → Kf h n a b
+      = (∑ d ∈ Finset.Icc (-((h.length/2 : Nat):Int)) ((h.length/2 : Nat):Int), tapc h d * (if (2*(n:Int)) ∣ ((a:Int) + d - b) then 1 else 0))
+      + (∑ d ∈ Finset.Icc (-((h.length/2 : Nat):Int)) ((h.length/2 : Nat):Int), tapc h d * (if (2*(n:Int)) ∣ ((a:Int) + d + 1 + b) then 1 else 0)) := by
+    intro a b ha hb
+    unfold Kf
+    rw [← Finset.sum_add_distrib]
+    apply Finset.sum_congr rfl; intro d _
+    rw [← mul_add]
+    congr 1
+    have hiff := symIdx_eq_iff (n:Int) ((a:Int) + d) (b:Int) hn (by omega) (by omega)
+    have hnb := not_both (n:Int) ((a:Int) + d) (b:Int) hn
+    by_cases h1 : (2*(n:Int)) ∣ ((a:Int) + d - b)
+    · have h2 : ¬ (2*(n:Int)) ∣ ((a:Int) + d + 1 + b) := fun h2 => hnb ⟨h1, h2⟩
+      rw [if_pos (hiff.mpr (Or.inl h1)), if_pos h1, if_neg h2]; ring
+    · by_cases h2 : (2*(n:Int)) ∣ ((a:Int) + d + 1 + b)
+      · rw [if_pos (hiff.mpr (Or.inr h2)), if_neg h1, if_pos h2]; ring
+      · rw [if_neg (fun hc => (hiff.mp hc).elim h1 h2), if_neg h1, if_neg h2]; ring
+  rw [split i k hi hk, split k i hk hi]
+  congr 1
+  · rw [sum_Icc_neg _ (fun d => tapc h d * (if (2*(n:Int)) ∣ ((k:Int) + d - i) then 1 else 0))]
+    apply Finset.sum_congr rfl; intro d _
+    rw [tapc_even h hodd hs]
+    congr 1
+    have e : (k:Int) + -d - i = -((i:Int) + d - k) := by ring
+    rw [e]
+    by_cases h1 : (2*(n:Int)) ∣ ((i:Int) + d - k)
+    · rw [if_pos h1, if_pos ((dvd_neg).mpr h1)]
+    · rw [if_neg h1, if_neg (fun hc => h1 ((dvd_neg).mp hc))]
+  · apply Finset.sum_congr rfl; intro d _
+    have e : (i:Int) + d + 1 + k = (k:Int) + d + 1 + i := by ring
+    rw [e]
+
+/-- **`colfilter` with a symmetric odd-length filter is self-adjoint** on columns of any length:
+`⟨colfilter h x, y⟩ = ⟨x, colfilter h y⟩` — the reason the level-1 backward pass may re-use the forward filters -/
+theorem colfilter_self_adjoint (h x y : List R) (hodd : h.length % 2 = 1) (hs : Symm h) (n : Nat) (hn : 1 ≤ n)
+    (hx : x.length = n) (hy : y.length = n) :
+    ∑ i ∈ range n, getN (Spec.colfilter h x) i * getN y i = ∑ i ∈ range n, getN x i * getN (Spec.colfilter h y) i := by
+  have expand : ∀ (z : List R), z.length = n → ∀ i < n,
+      getN (Spec.colfilter h z) i = ∑ k ∈ range n, getN z k * Kf h n i k := by
+    intro z hz i hi
+    rw [colfilter_get_c h z hodd i (by omega)]
+    unfold Kf
+    simp only [Finset.mul_sum]
+    rw [Finset.sum_comm]
+    apply Finset.sum_congr rfl; intro d _
+    unfold Spec.xt
+    rw [getZ_eq_sum, hz, Finset.mul_sum]
+    apply Finset.sum_congr rfl; intro k _
+    by_cases hc : (k:Int) = symIdx (n:Int) ((i:Int) + d)
+    · rw [if_pos hc, if_pos hc.symm]; ring
+    · rw [if_neg hc, if_neg (fun h' => hc h'.symm)]; ring
+  have l : ∀ i ∈ range n, getN (Spec.colfilter h x) i * getN y i = ∑ k ∈ range n, getN x k * getN y i * Kf h n i k := by
+    intro i hi
+    rw [expand x hx i (by simpa using hi), Finset.sum_mul]
+    apply Finset.sum_congr rfl; intro k _; ring
+  have r : ∀ k ∈ range n, getN x k * getN (Spec.colfilter h y) k = ∑ i ∈ range n, getN x k * getN y i * Kf h n i k := by
+    intro k hk
+    have hk' : k < n := by simpa using hk
+    rw [expand y hy k hk', Finset.mul_sum]
+    apply Finset.sum_congr rfl; intro i hi
+    rw [Kf_symm h hodd hs n k i hk' (by simpa using hi)]; ring
+  rw [Finset.sum_congr rfl l, Finset.sum_congr rfl r, Finset.sum_comm]
+
+
+/-! ### images -/
+
+theorem dot2_tab2 (H W : Nat) (f g : Nat → Nat → R) :
+    dot2 H W (tab2 H W f) (tab2 H W g) = ∑ i ∈ range H, ∑ j ∈ range W, f i j * g i j := by
+  unfold dot2
+  apply Finset.sum_congr rfl; intro i hi
+  apply Finset.sum_congr rfl; intro j hj
+  rw [get2_tab2 _ _ _ _ _ (by simpa using hi) (by simpa using hj), get2_tab2 _ _ _ _ _ (by simpa using hi) (by simpa using hj)]
+
+theorem dot2_congr_right (H W : Nat) (x y : Img R) (g : Nat → Nat → R) (h : ∀ i < H, ∀ j < W, get2 y i j = g i j) :
+    dot2 H W x y = ∑ i ∈ range H, ∑ j ∈ range W, get2 x i j * g i j := by
+  unfold dot2
+  apply Finset.sum_congr rfl; intro i hi
+  apply Finset.sum_congr rfl; intro j hj
+  rw [h i (by simpa using hi) j (by simpa using hj)]
+
+/-- column filtering with a symmetric filter is self-adjoint on images -/
+theorem alongH_self_adjoint (h : List R) (hodd : h.length % 2 = 1) (hs : Symm h) (x y : Img R) (H W : Nat)
+    (hx : Rect x H W) (hy : Rect y H W) (hH : 1 ≤ H) (hW : 1 ≤ W) :
+    dot2 H W (alongH (Cf h) x) y = dot2 H W x (alongH (Cf h) y) := by
+  have hlen : ∀ c : List R, c.length = H → (Cf h c).length = H := fun c hc => by rw [colfilter_length h c hodd, hc]
+  rw [alongH_get (Cf h) x H W hx hH hW hlen, alongH_get (Cf h) y H W hy hH hW hlen]
+  conv_lhs => rw [rect_eq_tab2 y H W hy]
+  conv_rhs => rw [rect_eq_tab2 x H W hx]
+  rw [dot2_tab2, dot2_tab2, Finset.sum_comm]
+  conv_rhs => rw [Finset.sum_comm]
+  apply Finset.sum_congr rfl; intro j hj
+  have hj' : j < W := by simpa using hj
+  have hcx : (col x j).length = H := by simp [col, hx.1]
+  have hcy : (col y j).length = H := by simp [col, hy.1]
+  have := colfilter_self_adjoint h (col x j) (col y j) hodd hs H hH hcx hcy
+  have e1 : ∀ i ∈ range H, get2 y i j = getN (col y j) i := by
+    intro i hi; unfold col; rw [getN_tab, hy.1, if_pos (by simpa using hi)]
+  have e2 : ∀ i ∈ range H, get2 x i j = getN (col x j) i := by
+    intro i hi; unfold col; rw [getN_tab, hx.1, if_pos (by simpa using hi)]
+  calc ∑ i ∈ range H, getN (Cf h (col x j)) i * get2 y i j
+      = ∑ i ∈ range H, getN (Cf h (col x j)) i * getN (col y j) i := by
+        apply Finset.sum_congr rfl; intro i hi; rw [e1 i hi]
+    _ = ∑ i ∈ range H, getN (col x j) i * getN (Cf h (col y j)) i := this
+    _ = ∑ i ∈ range H, get2 x i j * getN (Cf h (col y j)) i := by
+        apply Finset.sum_congr rfl; intro i hi; rw [e2 i hi]
+
+/-- row filtering with a symmetric filter is self-adjoint on images -/
+theorem alongW_self_adjoint (h : List R) (hodd : h.length % 2 = 1) (hs : Symm h) (x y : Img R) (H W : Nat)
+    (hx : Rect x H W) (hy : Rect y H W) (hW : 1 ≤ W) :
+    dot2 H W (alongW (Cf h) x) y = dot2 H W x (alongW (Cf h) y) := by
+  have hlen : ∀ c : List R, c.length = W → (Cf h c).length = W := fun c hc => by rw [colfilter_length h c hodd, hc]
+  rw [alongW_get (Cf h) x H W hx hlen, alongW_get (Cf h) y H W hy hlen]
+  conv_lhs => rw [rect_eq_tab2 y H W hy]
+  conv_rhs => rw [rect_eq_tab2 x H W hx]
+  rw [dot2_tab2, dot2_tab2]
+  apply Finset.sum_congr rfl; intro i hi
+  have hi' : i < H := by simpa using hi
+  have hrow : ∀ (z : Img R), Rect z H W → (z.getD i []).length = W := by
+    intro z hz
+    apply hz.2
+    rw [List.getD_eq_getElem?_getD, List.getElem?_eq_getElem (by rw [hz.1]; exact hi')]; simp
+  have := colfilter_self_adjoint h (x.getD i []) (y.getD i []) hodd hs W hW (hrow x hx) (hrow y hy)
+  exact this
+
+
+theorem dot2_iadd (H W : Nat) (x a b : Img R) (ha : Rect a H W) (hb : Rect b H W) :
+    dot2 H W x (iadd a b) = dot2 H W x a + dot2 H W x b := by
+  rw [rect_eq_tab2 a H W ha, rect_eq_tab2 b H W hb, iadd_tab2]
+  unfold dot2
+  rw [← Finset.sum_add_distrib]
+  apply Finset.sum_congr rfl; intro i hi
+  rw [← Finset.sum_add_distrib]
+  apply Finset.sum_congr rfl; intro j hj
+  have hi' : i < H := by simpa using hi
+  have hj' : j < W := by simpa using hj
+  rw [get2_tab2 _ _ _ _ _ hi' hj', get2_tab2 _ _ _ _ _ hi' hj', get2_tab2 _ _ _ _ _ hi' hj']
+  ring
+
+theorem iadd_rect (H W : Nat) (a b : Img R) (ha : Rect a H W) (hb : Rect b H W) : Rect (iadd a b) H W := by
+  rw [rect_eq_tab2 a H W ha, rect_eq_tab2 b H W hb, iadd_tab2]
+  exact tab2_rect H W _
+
+theorem c2q_rect (s : R) (H W : Nat) (hH : 1 ≤ H) (a1 b1 a2 b2 : Nat → Nat → R) :
+    Rect (c2q s (tab2 H W a1, tab2 H W b1) (tab2 H W a2, tab2 H W b2)) (2*H) (2*W) := by
+  unfold c2q
+  simp only []
+  have h1 : (tab2 H W a1).length = H := by simp [tab2]
+  have h2 : (tab2 H W a1).width = W := width_tab2 _ _ _ (by omega)
+  rw [h1, h2]
+  exact tab2_rect _ _ _
+
+theorem dot2_comm (H W : Nat) (x y : Img R) : dot2 H W x y = dot2 H W y x := by
+  unfold dot2
+  apply Finset.sum_congr rfl; intro i _
+  apply Finset.sum_congr rfl; intro j _
+  ring
+
+/-- **`FWD_J1.backward` is the adjoint of `fwd_j1`** (implementation models, symmetric mode): for symmetric
+odd-length level-1 filters, every even-sized image `x`, every low-pass cotangent `dl` and every six complex
+band cotangents, `⟨fwd_j1 x, (dl, dh)⟩ = ⟨x, backward(dl, dh)⟩`. -/
+theorem fwdJ1_backward_adjoint (s : R) (h0 h1 : List R) (hh0 : h0.length % 2 = 1) (hh1 : h1.length % 2 = 1)
+    (hs0 : Symm h0) (hs1 : Symm h1) (x dl : Img R) (H W : Nat) (hH : 1 ≤ H) (hW : 1 ≤ W)
+    (hx : Rect x (2*H) (2*W)) (hdl : Rect dl (2*H) (2*W)) (a b : Nat → Nat → Nat → R) :
+    let dh : List (Cplx R) := (List.range 6).map fun k => (tab2 H W (a k), tab2 H W (b k))
+    let F := fwdJ1 s true (prepFilt h0) (prepFilt h1) false x
+    ∃ hs y, F.2 = some hs ∧ FWD_J1_backward s true (prepFilt h0) (prepFilt h1) (H, W) dl (some dh) = some y ∧
+      dot2 (2*H) (2*W) F.1 dl
+        + ∑ k ∈ range 6, (dot2 H W (hs.getD k ([], [])).1 (dh.getD k ([], [])).1
+                          + dot2 H W (hs.getD k ([], [])).2 (dh.getD k ([], [])).2)
+        = dot2 (2*H) (2*W) x y := by
+  intro dh F
+  have L0 : 1 ≤ h0.length := by omega
+  have L1 : 1 ≤ h1.length := by omega
+  have h2H : 1 ≤ 2 * H := by omega
+  have h2W : 1 ≤ 2 * W := by omega
+  have eLo : rowfilter true (prepFilt h0) x = alongW (Cf h0) x := rowfilter_model h0 L0 x (2*W) h2W hx.2
+  have eHi : rowfilter true (prepFilt h1) x = alongW (Cf h1) x := rowfilter_model h1 L1 x (2*W) h2W hx.2
+  have rLo := alongW_rect h0 hh0 x _ _ hx
+  have rHi := alongW_rect h1 hh1 x _ _ hx
+  set lo := alongW (Cf h0) x with hlo
+  set hi := alongW (Cf h1) x with hhi
+  have ell : colfilter true (prepFilt h0) lo = alongH (Cf h0) lo := colfilter_model h0 L0 lo (by rw [rLo.1]; exact h2H)
+  have elh : colfilter true (prepFilt h1) lo = alongH (Cf h1) lo := colfilter_model h1 L1 lo (by rw [rLo.1]; exact h2H)
+  have ehl : colfilter true (prepFilt h0) hi = alongH (Cf h0) hi := colfilter_model h0 L0 hi (by rw [rHi.1]; exact h2H)
+  have ehh : colfilter true (prepFilt h1) hi = alongH (Cf h1) hi := colfilter_model h1 L1 hi (by rw [rHi.1]; exact h2H)
+  have rll := alongH_rect h0 hh0 lo _ _ rLo h2H h2W
+  have rlh := alongH_rect h1 hh1 lo _ _ rLo h2H h2W
+  have rhl := alongH_rect h0 hh0 hi _ _ rHi h2H h2W
+  have rhh := alongH_rect h1 hh1 hi _ _ rHi h2H h2W
+  set ll := alongH (Cf h0) lo with hll
+  set lh := alongH (Cf h1) lo with hlh
+  set hl := alongH (Cf h0) hi with hhl
+  set hh := alongH (Cf h1) hi with hhh
+  have hF : F = (ll, some (highsToOrientations s lh hl hh)) := by
+    show fwdJ1 s true (prepFilt h0) (prepFilt h1) false x = _
+    unfold fwdJ1
+    simp only [Bool.false_eq_true, if_false, eLo, eHi, ell, elh, ehl, ehh]
+  -- the synthesis side
+  set lh' := c2q s (tab2 H W (a 0), tab2 H W (b 0)) (tab2 H W (a 5), tab2 H W (b 5)) with hlh'
+  set hl' := c2q s (tab2 H W (a 2), tab2 H W (b 2)) (tab2 H W (a 3), tab2 H W (b 3)) with hhl'
+  set hh' := c2q s (tab2 H W (a 1), tab2 H W (b 1)) (tab2 H W (a 4), tab2 H W (b 4)) with hhh'
+  have r1 : Rect lh' (2*H) (2*W) := c2q_rect s H W hH _ _ _ _
+  have r2 : Rect hl' (2*H) (2*W) := c2q_rect s H W hH _ _ _ _
+  have r3 : Rect hh' (2*H) (2*W) := c2q_rect s H W hH _ _ _ _
+  have hoth : orientationsToHighs s dh = (lh', hl', hh') := by
+    unfold orientationsToHighs
+    simp [dh, List.range, List.range.loop, hlh', hhl', hhh']
+  have c1 : colfilter true (prepFilt h1) hh' = alongH (Cf h1) hh' := colfilter_model h1 L1 _ (by rw [r3.1]; exact h2H)
+  have c2 : colfilter true (prepFilt h0) hl' = alongH (Cf h0) hl' := colfilter_model h0 L0 _ (by rw [r2.1]; exact h2H)
+  have c3 : colfilter true (prepFilt h1) lh' = alongH (Cf h1) lh' := colfilter_model h1 L1 _ (by rw [r1.1]; exact h2H)
+  have c4 : colfilter true (prepFilt h0) dl = alongH (Cf h0) dl := colfilter_model h0 L0 _ (by rw [hdl.1]; exact h2H)
+  have q1 := alongH_rect h1 hh1 hh' _ _ r3 h2H h2W
+  have q2 := alongH_rect h0 hh0 hl' _ _ r2 h2H h2W
+  have q3 := alongH_rect h1 hh1 lh' _ _ r1 h2H h2W
+  have q4 := alongH_rect h0 hh0 dl _ _ hdl h2H h2W
+  set HI := iadd (alongH (Cf h1) hh') (alongH (Cf h0) hl') with hHI
+  set LO := iadd (alongH (Cf h1) lh') (alongH (Cf h0) dl) with hLO
+  have rHI : Rect HI (2*H) (2*W) := iadd_rect _ _ _ _ q1 q2
+  have rLO : Rect LO (2*H) (2*W) := iadd_rect _ _ _ _ q3 q4
+  have hB : FWD_J1_backward s true (prepFilt h0) (prepFilt h1) (H, W) dl (some dh)
+      = some (iadd (alongW (Cf h1) HI) (alongW (Cf h0) LO)) := by
+    unfold FWD_J1_backward
+    simp only [invJ1]
+    rw [hoth]
+    simp only []
+    rw [cropToHighs_id dl H W hdl.1 (rect_width _ _ _ hdl h2H), c1, c2, c3, c4]
+    have hshape : ¬ ((alongH (Cf h1) lh').length ≠ (alongH (Cf h0) dl).length ∨
+        (alongH (Cf h1) lh').width ≠ (alongH (Cf h0) dl).width) := by
+      rw [q3.1, q4.1, rect_width _ _ _ q3 h2H, rect_width _ _ _ q4 h2H]; simp
+    rw [if_neg hshape]
+    rw [rowfilter_model h1 L1 HI (2*W) h2W rHI.2, rowfilter_model h0 L0 LO (2*W) h2W rLO.2]
+  refine ⟨highsToOrientations s lh hl hh, _, by rw [hF], hB, ?_⟩
+  rw [hF]
+  simp only []
+  -- right-hand side: move every filter across the inner product
+  have wHI := alongW_rect h1 hh1 HI _ _ rHI
+  have wLO := alongW_rect h0 hh0 LO _ _ rLO
+  rw [dot2_iadd _ _ x _ _ wHI wLO]
+  rw [dot2_comm _ _ x (alongW (Cf h1) HI), alongW_self_adjoint h1 hh1 hs1 HI x _ _ rHI hx h2W, dot2_comm _ _ HI, ← hhi]
+  rw [dot2_comm _ _ x (alongW (Cf h0) LO), alongW_self_adjoint h0 hh0 hs0 LO x _ _ rLO hx h2W, dot2_comm _ _ LO, ← hlo]
+  rw [dot2_iadd _ _ hi _ _ q1 q2, dot2_iadd _ _ lo _ _ q3 q4]
+  rw [dot2_comm _ _ hi (alongH (Cf h1) hh'), alongH_self_adjoint h1 hh1 hs1 hh' hi _ _ r3 rHi h2H h2W, dot2_comm _ _ hh', ← hhh]
+  rw [dot2_comm _ _ hi (alongH (Cf h0) hl'), alongH_self_adjoint h0 hh0 hs0 hl' hi _ _ r2 rHi h2H h2W, dot2_comm _ _ hl', ← hhl]
+  rw [dot2_comm _ _ lo (alongH (Cf h1) lh'), alongH_self_adjoint h1 hh1 hs1 lh' lo _ _ r1 rLo h2H h2W, dot2_comm _ _ lh', ← hlh]
+  rw [dot2_comm _ _ lo (alongH (Cf h0) dl), alongH_self_adjoint h0 hh0 hs0 dl lo _ _ hdl rLo h2H h2W, dot2_comm _ _ dl, ← hll]
+  -- left-hand side: the six band pairs through q2c / c2q
+  have k1 := q2c_c2q_adjoint s H W (by omega) (get2 lh) (a 0) (b 0) (a 5) (b 5)
+  have k2 := q2c_c2q_adjoint s H W (by omega) (get2 hl) (a 2) (b 2) (a 3) (b 3)
+  have k3 := q2c_c2q_adjoint s H W (by omega) (get2 hh) (a 1) (b 1) (a 4) (b 4)
+  simp only [] at k1 k2 k3
+  rw [← rect_eq_tab2 lh _ _ rlh] at k1
+  rw [← rect_eq_tab2 hl _ _ rhl] at k2
+  rw [← rect_eq_tab2 hh _ _ rhh] at k3
+  rw [← hlh'] at k1; rw [← hhl'] at k2; rw [← hhh'] at k3
+  rw [← k1, ← k2, ← k3]
+  simp [highsToOrientations, dh, Finset.sum_range_succ, List.range, List.range.loop]
+  ring
+
 
 end WV.C06
